@@ -84,6 +84,8 @@ def compute_linear_norm_sample(
             ret[layer.weight] = torch.sqrt(ga)
         if layer.bias is not None and layer.bias.requires_grad:
             ggT = torch.einsum("nik,njk->nij", backprops, backprops)
-            gg = torch.einsum("n...i,n...i->n", ggT, ggT).clamp(min=0)
+            # the bias gradient is sum_t g_t, so its squared norm is
+            # sum_{t,t'} <g_t, g_t'>: the sum of the entries of g g^T
+            gg = ggT.sum(dim=(1, 2)).clamp(min=0)
             ret[layer.bias] = torch.sqrt(gg)
     return ret
